@@ -1,6 +1,13 @@
 package h
 
-import "os"
+import (
+	"fmt"
+	"os"
+	"sort"
+	"strings"
+
+	"github.com/couchbaselabs/rosmar"
+)
 
 func removeAll(p string) {
 	if p != "" {
@@ -9,3 +16,38 @@ func removeAll(p string) {
 }
 
 func quiesce() { vrtQuiesce() }
+
+// CacheState abstracts the lazily filled name -> collection caches (of a handle and of the registry's
+// canonical bucket) to what can matter later: for every cached name whether the cached id is still the
+// collection's id ("ok") or belongs to a dropped incarnation ("stale").
+func CacheState(b *rosmar.Bucket) string {
+	d, err := rosmar.VerifDumpAll(b)
+	if err != nil {
+		return "?"
+	}
+	ids := map[string]int64{}
+	for _, c := range d.Collections {
+		ids[c.Name] = c.ID
+	}
+	one := func(m map[string]uint32) string {
+		var out []string
+		for name, id := range m {
+			st := "stale"
+			if real, ok := ids[name]; ok && real-1 == int64(id) {
+				st = "ok"
+			}
+			out = append(out, name+"="+st)
+		}
+		sort.Strings(out)
+		return strings.Join(out, ",")
+	}
+	h, c := rosmar.VerifCollectionCaches(b)
+	// the ids themselves: a collection that was dropped and created again is a different collection
+	// (new id) even when it is empty again - later behaviour may depend on it
+	var gen []string
+	for name, id := range ids {
+		gen = append(gen, fmt.Sprintf("%s:%d", name, id))
+	}
+	sort.Strings(gen)
+	return strings.Join(gen, ",") + "|" + one(h) + "|" + one(c)
+}
